@@ -37,7 +37,10 @@ type UCase struct {
 	ClientIPs []string      `json:"client_ips"` // one socket per entry; repeated IPs = same IP, different ports
 	Targets   []string      `json:"targets"`    // "v4" | "v6"
 	TimeoutMs int           `json:"timeout_ms"` // NAT timeout
-	Ops       []UOp         `json:"ops"`
+	// SlowRemoveMs: the sink of the removal report is slow, so an association stays in the table this long after its
+	// removal was reported (the teardown window that is otherwise a few microseconds wide)
+	SlowRemoveMs int   `json:"slow_remove_ms,omitempty"`
+	Ops          []UOp `json:"ops"`
 }
 
 type uOpts struct {
@@ -68,6 +71,7 @@ func genUCase(o uOpts) func(t *rapid.T) UCase {
 		c.TimeoutMs = 300_000
 		if o.expiry {
 			c.TimeoutMs = rapid.SampledFrom([]int{120, 200, 350}).Draw(t, "timeout")
+			c.SlowRemoveMs = rapid.SampledFrom([]int{0, 0, 0, 5, 20}).Draw(t, "slowRemove")
 		}
 		nops := rapid.IntRange(1, o.maxOps).Draw(t, "nops")
 		kinds := []string{"send", "send", "send", "send", "send", "send", "send", "send", "reply", "reply", "reply", "reply", "stray", "stray", "update"}
@@ -262,7 +266,7 @@ func (w *uWorld) close() {
 }
 
 func newUWorld(c UCase, info *kit.Info, validator func(net.IP) error) (*uWorld, *kit.Finding) {
-	w := &uWorld{c: c, info: info, met: &kit.RecService{}, assoc: map[int]*uAssoc{}, salts: map[string]bool{}, stranger: map[string]*kit.UDPPeer{}}
+	w := &uWorld{c: c, info: info, met: &kit.RecService{RemoveDelay: time.Duration(c.SlowRemoveMs) * time.Millisecond}, assoc: map[int]*uAssoc{}, salts: map[string]bool{}, stranger: map[string]*kit.UDPPeer{}}
 	have6 := kit.HaveAddr("::1")
 	for _, i := range c.List {
 		w.model = append(w.model, c.Universe[i])
